@@ -44,17 +44,21 @@ Singles(pool) == { <<pool[i]>> : i \in 1..Len(pool) }
 
 (* pools: "multi" = combined up to 3 at a time in every order; "single" = boundary values, one at a time *)
 UserPool == <<PU(SA, SB), PU(SA, <<>>), PU(SE, SE)>>                     \* incl. a repeated key, an empty value
-MultiPool(ctx) ==
-  CASE ctx = CONNECT     -> <<PN(17, 1), PS(21, SA), PN(33, 1)>> \o UserPool
-    [] ctx = WILL        -> <<PN(1, 1), PN(24, 5), PU(SA, SB)>>
-    [] ctx = CONNACK     -> <<PN(17, 1), PS(18, SA), PN(36, 1)>> \o UserPool
-    [] ctx = PUBLISH     -> <<PN(1, 1), PS(3, SA), PN(35, 1)>> \o UserPool
+MultiPool(ctx, sz) ==
+  CASE ctx = CONNECT     -> IF sz = 1 THEN <<PN(17, 1), PS(21, SA), PN(33, 1)>> \o UserPool
+                            ELSE <<PN(17, 1), PS(21, SA), PS(22, <<0>>), PN(33, 1), PN(34, 256)>> \o UserPool \o <<PN(39, 65536)>>
+    [] ctx = WILL        -> IF sz = 1 THEN <<PN(1, 1), PN(24, 5), PU(SA, SB)>>
+                            ELSE <<PN(1, 1), PN(2, 65536), PS(3, SA), PS(8, SA), PN(24, 5), PU(SA, SB)>>
+    [] ctx = CONNACK     -> IF sz = 1 THEN <<PN(17, 1), PS(18, SA), PN(36, 1)>> \o UserPool
+                            ELSE <<PN(17, 1), PS(18, SA), PN(19, 256), PS(31, SA), PN(36, 1)>> \o UserPool \o <<PN(42, 0)>>
+    [] ctx = PUBLISH     -> IF sz = 1 THEN <<PN(1, 1), PS(3, SA), PN(35, 1)>> \o UserPool
+                            ELSE <<PN(1, 1), PN(2, 256), PS(3, SA), PS(9, <<0>>), PN(35, 1)>> \o UserPool
     [] ctx \in AckTypes  -> <<PS(31, SA)>> \o UserPool
     [] ctx = SUBSCRIBE   -> <<PN(11, 1)>> \o UserPool
     [] ctx = SUBACK      -> <<PS(31, SA)>> \o UserPool
     [] ctx = UNSUBSCRIBE -> UserPool
     [] ctx = UNSUBACK    -> <<PS(31, SA)>> \o UserPool
-    [] ctx = DISCONNECT  -> <<PN(17, 1), PS(31, SA)>> \o UserPool
+    [] ctx = DISCONNECT  -> IF sz = 1 THEN <<PN(17, 1), PS(31, SA)>> \o UserPool ELSE <<PN(17, 1), PS(28, SA), PS(31, SA)>> \o UserPool
     [] ctx = AUTH        -> <<PS(21, SA), PS(22, <<0, 255>>), PS(31, SA)>> \o UserPool
 U32s == <<1, 65535, 65536, 2147483647, -1>>       \* -1 is 4294967295
 U16s == <<1, 255, 256, 65535>>
@@ -62,7 +66,7 @@ SubIds == <<1, 127, 128, 16383, 16384, 2097151, 2097152, 268435455>>
 Nums(id, vals) == [i \in 1..Len(vals) |-> PN(id, vals[i])]
 SinglePool(ctx) ==
   CASE ctx = CONNECT     -> Nums(17, <<0>> \o U32s) \o Nums(33, U16s) \o Nums(39, U32s) \o Nums(34, <<0>> \o U16s)
-                            \o Nums(25, <<0, 1>>) \o Nums(23, <<0, 1>>) \o <<PS(21, SE), PS(22, <<>>), PS(22, <<0>>), PU(<<>>, <<>>)>>
+                            \o Nums(25, <<0, 1>>) \o Nums(23, <<0, 1>>) \o <<PS(21, SE), PS(22, <<0>>), PU(<<>>, <<>>)>>
     [] ctx = WILL        -> Nums(1, <<0, 1>>) \o Nums(2, U32s) \o <<PS(3, SE), PS(8, SA), PS(9, <<0, 255>>)>> \o Nums(24, <<0>> \o U32s)
     [] ctx = CONNACK     -> Nums(17, <<0>> \o U32s) \o <<PS(18, SE)>> \o Nums(19, <<0>> \o U16s) \o <<PS(21, SA), PS(22, <<0>>), PS(26, SA), PS(28, SA), PS(31, SE)>>
                             \o Nums(33, U16s) \o Nums(34, <<0>> \o U16s) \o Nums(36, <<0, 1>>) \o Nums(37, <<0, 1>>)
@@ -75,16 +79,16 @@ SinglePool(ctx) ==
     [] ctx = UNSUBSCRIBE -> <<PU(<<>>, <<>>)>>
     [] ctx = UNSUBACK    -> <<PS(31, SE)>>
     [] ctx = DISCONNECT  -> Nums(17, <<0>> \o U32s) \o <<PS(28, SA), PS(31, SE)>>
-    [] ctx = AUTH        -> <<PS(21, SE), PS(22, <<>>)>>
+    [] ctx = AUTH        -> <<PS(21, SE), PS(22, <<0>>)>>
 (* properties that only the server side produces: subscription identifiers on a PUBLISH *)
 PubSubIds == { <<PN(11, 1)>>, <<PN(11, 268435455)>>, <<PN(11, 127), PN(11, 128)>>, <<PN(11, 16384), PN(11, 2097151)>>,
                <<PN(11, 16383), PN(11, 2097152), PU(SA, SB)>> }
 
 PropSets(ctx, ver, sz) ==
   IF ver # 5 THEN {<<>>}
-  ELSE {<<>>} \cup Singles(SinglePool(ctx)) \cup Combos(ctx, MultiPool(ctx), IF sz = 1 /\ ctx \notin {DISCONNECT, AUTH} \cup AckTypes THEN 2 ELSE 3)
+  ELSE {<<>>} \cup Singles(SinglePool(ctx)) \cup Combos(ctx, MultiPool(ctx, sz), IF sz = 1 /\ ctx \notin {DISCONNECT, AUTH} \cup AckTypes THEN 2 ELSE 3)
 (* a smaller choice to be crossed with other fields *)
-FewProps(ctx, ver) == IF ver # 5 THEN {<<>>} ELSE {<<>>} \cup Combos(ctx, MultiPool(ctx), 1)
+FewProps(ctx, ver) == IF ver # 5 THEN {<<>>} ELSE {<<>>} \cup Combos(ctx, MultiPool(ctx, 1), 1)
 
 ReasonsOf(t) ==
   CASE t = PUBACK \/ t = PUBREC   -> {0, 16, 128, 135, 145, 151, 153}
@@ -114,6 +118,9 @@ DomConnect(v, sz) ==
   \cup { [WithWill(b, 0, FALSE) EXCEPT !.cn.wprops = ps] : ps \in PropSets(WILL, v, sz) }
   \cup { [UP(WithWill(b, 2, TRUE), TRUE, TRUE) EXCEPT !.props = ps, !.cn.wprops = ws]
            : ps \in FewProps(CONNECT, v), ws \in FewProps(WILL, v) }
+  \cup (IF sz = 2 THEN { [UP(WithWill([b EXCEPT !.cn.clean = c], (w - 1) % 3, w > 3), up[1], up[2]) EXCEPT !.props = ps, !.cn.wprops = ws]
+                          : c \in BOOLEAN, w \in 1..6, up \in {<<FALSE, FALSE>>, <<TRUE, FALSE>>, <<TRUE, TRUE>>},
+                            ps \in PropSets(CONNECT, v, 1), ws \in FewProps(WILL, v) } ELSE {})
 
 PubFlags == { <<d, q, r>> \in BOOLEAN \X (0..2) \X BOOLEAN : d => q > 0 }
 PubBase(v) == [Pkt(PUBLISH, v) EXCEPT !.topic = SA, !.payload = SB]
@@ -126,7 +133,7 @@ DomPublish(v, sz) ==
   \cup { [b EXCEPT !.props = ps] : ps \in PropSets(PUBLISH, v, sz) }
   \cup { [SetFl(b, <<FALSE, 2, TRUE>>) EXCEPT !.props = ps, !.payload = t] : ps \in FewProps(PUBLISH, v), t \in {<<>>, SE} }
   \cup (IF v = 5 THEN { [b EXCEPT !.topic = <<>>, !.props = <<PN(35, a)>>] : a \in {1, 65535} } ELSE {})
-  \cup (IF sz = 2 THEN { [SetFl(b, f) EXCEPT !.props = ps] : f \in PubFlags, ps \in FewProps(PUBLISH, v) } ELSE {})
+  \cup (IF sz = 2 THEN { [SetFl(b, f) EXCEPT !.props = ps, !.payload = t] : f \in PubFlags, ps \in PropSets(PUBLISH, v, 2), t \in {<<>>, SB} } ELSE {})
 (* what only a server sends *)
 DomPublishServer(v) == IF v = 5 THEN { [PubBase(v) EXCEPT !.props = ps] : ps \in PubSubIds } ELSE {}
 
@@ -134,7 +141,7 @@ DomAck(t, v, sz) ==
   LET b == [Pkt(t, v) EXCEPT !.pid = 7] IN
      { [b EXCEPT !.pid = i] : i \in Pids }
   \cup (IF v = 5 THEN { [b EXCEPT !.reason = c, !.props = ps] : c \in ReasonsOf(t), ps \in FewProps(t, v) }
-                      \cup { [b EXCEPT !.reason = c, !.props = ps] : c \in {0, 128}, ps \in PropSets(t, v, sz) }
+                      \cup { [b EXCEPT !.reason = c, !.props = ps] : c \in (IF sz = 2 THEN ReasonsOf(t) ELSE {0, 128}), ps \in PropSets(t, v, sz) }
                  ELSE {})
 
 MkFilters(fs, os, sid) == [i \in 1..Len(fs) |-> Filt(fs[i], os[i], sid)]
@@ -146,7 +153,8 @@ DomSubscribe(v, sz) ==
            : n \in 2..3, os \in { <<0, 1, 2>>, <<2, 1, 0>> } \cup (IF v = 5 THEN {<<46, 29, 4>>, <<8, 16, 38>>} ELSE {}) }
   \cup { [b EXCEPT !.props = ps, !.filters = MkFilters(SubSeq(FilterStrs, 1, n), <<1, 0, 2>>, SidOf(ps))]
            : ps \in PropSets(SUBSCRIBE, v, sz), n \in {1, 2} }
-  \cup (IF sz = 2 THEN { [b EXCEPT !.filters = <<Filt(SE, o, 0), Filt(SA, o2, 0)>>] : o \in OptsFor(v), o2 \in OptsFor(v) } ELSE {})
+  \cup (IF sz = 2 THEN { [b EXCEPT !.props = ps, !.filters = <<Filt(SE, o, SidOf(ps)), Filt(SA, o2, SidOf(ps))>>]
+                          : o \in OptsFor(v), o2 \in OptsFor(v), ps \in (IF v = 5 THEN {<<>>, <<PN(11, 128)>>, <<PU(SA, SB)>>} ELSE {<<>>}) } ELSE {})
 
 DomUnsubscribe(v, sz) ==
   LET b == [Pkt(UNSUBSCRIBE, v) EXCEPT !.pid = 7] IN
@@ -172,7 +180,7 @@ DomTail(t, v, sz) ==           \* DISCONNECT, AUTH
   LET b == Pkt(t, v) IN
   IF v # 5 THEN {b}
   ELSE { [b EXCEPT !.reason = c, !.props = ps] : c \in ReasonsOf(t), ps \in FewProps(t, v) }
-       \cup { [b EXCEPT !.reason = c, !.props = ps] : c \in {0, IF t = AUTH THEN 24 ELSE 4}, ps \in PropSets(t, v, sz) }
+       \cup { [b EXCEPT !.reason = c, !.props = ps] : c \in (IF sz = 2 THEN ReasonsOf(t) ELSE {0, IF t = AUTH THEN 24 ELSE 4}), ps \in PropSets(t, v, sz) }
 
 Dom(t, v, sz) ==
   CASE t = CONNECT     -> DomConnect(v, sz)
@@ -276,7 +284,7 @@ VbiTable(sz) ==
 -----------------------------------------------------------------------------
 (* Shards *)
 ShardOf(seq, k) == LET n == Len(seq) IN [j \in 1..((n - k + NShards) \div NShards) |-> seq[k + (j - 1) * NShards]]
-Res(r) == [ok |-> r.ok, why |-> r.why, pkt |-> IF r.ok THEN Normalize(r.pkt) ELSE Pkt(0, 0)]
+Res(r) == [ok |-> r.ok, why |-> r.why, where |-> IF r.ok THEN "" ELSE r.where, pkt |-> IF r.ok THEN Normalize(CanonPkt(r.pkt)) ELSE Pkt(0, 0)]
 
 (* JOB c42: every encoding of every packet a client may send, with the packet the sender meant *)
 C42Packets == IF Job # "c42" THEN <<>> ELSE SetToSeq({ p \in AllDom(ClientTypes, {4, 5}, Size) : ClientMay(p) })
@@ -290,8 +298,8 @@ C42Rows(k) ==
 C42Work(k) ==
   LET ps == ShardOf(C42Packets, k)
   IN /\ \A i \in 1..Len(ps) : RoundTrips(ps[i]) /\ (Len(ps[i].props) > 1 \/ \A e \in Encodings(ps[i]) : PrefixesFail(e, ps[i].ver))
-     /\ JsonSerialize(OutFile \o "." \o ToString(k) \o ".json", C42Rows(k))
-     /\ PrintT(<<"ROWS", k, Len(C42Rows(k)), Len(ps)>>)
+     /\ LET rows == C42Rows(k)
+        IN JsonSerialize(OutFile \o "." \o ToString(k) \o ".json", rows) /\ PrintT(<<"ROWS", k, Len(rows), Len(ps)>>)
 
 (* JOB c26: packets of every type and version with the complete set of permitted encodings.           *)
 (* mode: how the encoder is asked to suppress (packets.Mods): "plain" | "noresp" (response information *)
@@ -303,33 +311,39 @@ Without(ps, ids) == SelectSeq(ps, LAMBDA pr : pr.id \notin ids)
 HasAny(ps, ids) == \E i \in 1..Len(ps) : ps[i].id \in ids
 C26Base == IF Job # "c26" THEN {} ELSE AllDom(Types, {3, 4, 5}, Size) \cup UNION { DomPublishServer(v) \cup DomBig(t, v) : t \in Types, v \in {3, 4, 5} }
 IsBig(p) == Len(p.props) + Len(p.cn.wprops) > 4        \* too many orders to enumerate
+(* the packets equivalent to q that differ from it by leaving out properties that carry their default *)
+DefaultIx(ps) == {i \in 1..Len(ps) : IsDefault(ps[i])}
+DropIx(ps, D) == LET keep == SetToSortSeq((1..Len(ps)) \ D, <) IN [i \in 1..Len(keep) |-> ps[keep[i]]]
+Variants(q) == { [q EXCEPT !.props = DropIx(q.props, D), !.cn.wprops = DropIx(q.cn.wprops, E)]
+                   : D \in SUBSET DefaultIx(q.props), E \in SUBSET DefaultIx(q.cn.wprops) }
 ProblemVariants(p) ==      \* [MQTT-3.1.2-29]: mandatory except on CONNACK / DISCONNECT, where it is optional
   IF p.type \in {CONNACK, DISCONNECT}
-    THEN <<Normalize([p EXCEPT !.props = Without(@, {31, 38})]), Normalize(p),
-           Normalize([p EXCEPT !.props = Without(@, {31})]), Normalize([p EXCEPT !.props = Without(@, {38})])>>
-    ELSE <<Normalize([p EXCEPT !.props = Without(@, {31, 38})])>>
+    THEN <<[p EXCEPT !.props = Without(@, {31, 38})], p, [p EXCEPT !.props = Without(@, {31})], [p EXCEPT !.props = Without(@, {38})]>>
+    ELSE <<[p EXCEPT !.props = Without(@, {31, 38})]>>
+(* a case: p = what the encoder is given, us = the packets its output may denote (before Normalize) *)
 C26Cases ==
   IF Job # "c26" THEN <<>> ELSE SetToSeq(
-     { [p |-> p, mode |-> "plain", msz |-> 0, qs |-> <<Normalize(p)>>] : p \in C26Base }
-     \cup { [p |-> p, mode |-> "noresp", msz |-> 0, qs |-> <<Normalize([p EXCEPT !.props = Without(@, {8, 9, 26})])>>]
+     { [p |-> p, mode |-> "plain", msz |-> 0, us |-> <<p>>] : p \in C26Base }
+     \cup { [p |-> p, mode |-> "noresp", msz |-> 0, us |-> <<[p EXCEPT !.props = Without(@, {8, 9, 26})]>>]
               : p \in { q \in C26Base : HasAny(q.props, {8, 9, 26}) /\ ~IsBig(q) } }
-     \cup { [p |-> p, mode |-> "noproblem", msz |-> 0, qs |-> ProblemVariants(p)]
+     \cup { [p |-> p, mode |-> "noproblem", msz |-> 0, us |-> ProblemVariants(p)]
               : p \in { q \in C26Base : q.type \notin {CONNECT, PUBLISH} /\ HasAny(q.props, {31, 38}) /\ ~IsBig(q) /\ Plain(PropBody(q.props)) } }
      \cup { [p |-> p, mode |-> "maxsize", msz |-> m,
-             qs |-> <<Normalize(p), Normalize([p EXCEPT !.props = Without(@, {31})]), Normalize([p EXCEPT !.props = Without(@, {38})]),
-                      Normalize([p EXCEPT !.props = Without(@, {31, 38})])>>]
+             us |-> <<p, [p EXCEPT !.props = Without(@, {31})], [p EXCEPT !.props = Without(@, {38})], [p EXCEPT !.props = Without(@, {31, 38})]>>]
               : p \in { q \in C26Base : q.type \in {PUBACK, DISCONNECT, SUBACK} /\ HasAny(q.props, {31, 38}) /\ ~IsBig(q) /\ Len(q.props) <= 2 /\ Plain(PropBody(q.props)) },
                 m \in {12, 16, 20} })
 C26EncList(c) ==
-  LET mk(i) == { [b |-> e, q |-> i] : e \in (IF IsBig(c.qs[i]) THEN {} ELSE Encodings(c.qs[i])) }
-  IN SetToSeq(UNION { mk(i) : i \in 1..Len(c.qs) })
+  LET mk(i) == { [b |-> e, q |-> i] : e \in (IF IsBig(c.us[i]) THEN {} ELSE UNION { Encodings(v) : v \in Variants(c.us[i]) }) }
+  IN SetToSeq(UNION { mk(i) : i \in 1..Len(c.us) })
 C26Rows(k) ==
   LET cs == ShardOf(C26Cases, k)
-  IN [i \in 1..Len(cs) |-> [id |-> k * 1000000 + i, p |-> cs[i].p, mode |-> cs[i].mode, msz |-> cs[i].msz, qs |-> cs[i].qs,
+  IN [i \in 1..Len(cs) |-> [id |-> k * 1000000 + i, p |-> cs[i].p, mode |-> cs[i].mode, msz |-> cs[i].msz,
+                            qs |-> [j \in 1..Len(cs[i].us) |-> Normalize(cs[i].us[j])],
                             big |-> IsBig(cs[i].p), encs |-> C26EncList(cs[i])]]
 C26Work(k) ==
   LET cs == ShardOf(C26Cases, k)
-  IN /\ \A i \in 1..Len(cs) : cs[i].mode = "plain" /\ ~IsBig(cs[i].p) => RoundTrips(cs[i].p)
+  IN /\ \A i \in 1..Len(cs) : cs[i].mode = "plain" /\ ~IsBig(cs[i].p) =>
+          RoundTrips(cs[i].p) /\ \A v \in Variants(cs[i].p) : Assert(Equiv(v, cs[i].p), <<"Variants", v>>)
      /\ JsonSerialize(OutFile \o "." \o ToString(k) \o ".json", C26Rows(k))
      /\ PrintT(<<"ROWS", k, Len(cs), Len(cs)>>)
 
@@ -339,7 +353,7 @@ C26Work(k) ==
 (* "cont" (continuation bit set on the last byte of a variable byte integer).                          *)
 C27Bases ==
   IF Job # "c27" THEN <<>> ELSE
-  LET all == SetToSeq(UNION { Encodings(p) : p \in { q \in AllDom(Types, {4, 5}, 1) : Len(q.props) <= 2 } })
+  LET all == SetToSeq(UNION { Encodings(p) : p \in { q \in AllDom(Types, {4, 5}, Size) : Len(q.props) <= 2 } })
       n == Len(all)
   IN [j \in 1..((n - Offset + Stride - 1) \div Stride) |-> all[1 + Offset + (j - 1) * Stride]]
 HeaderLen(e) == 1 + VbiDecode(SubSeq(e, 2, Len(e))).n
@@ -368,8 +382,8 @@ C27Rows(k) ==
                                   bytes |-> cs[j].bytes, e4 |-> Res(Parse(cs[j].bytes, 4)), e5 |-> Res(Parse(cs[j].bytes, 5))]]])
 C27Work(k) ==
   /\ \A i \in 1..Len(ShardOf(C27Bases, k)) : Assert(Plain(ShardOf(C27Bases, k)[i]), "run in a c27 base")
-  /\ JsonSerialize(OutFile \o "." \o ToString(k) \o ".json", C27Rows(k))
-  /\ PrintT(<<"ROWS", k, Len(C27Rows(k)), Len(ShardOf(C27Bases, k))>>)
+  /\ LET rows == C27Rows(k)
+     IN JsonSerialize(OutFile \o "." \o ToString(k) \o ".json", rows) /\ PrintT(<<"ROWS", k, Len(rows), Len(ShardOf(C27Bases, k))>>)
 
 (* JOB judge (use C): rows recorded from the real code.                                              *)
 (*   [id, op = "equiv", exp, got]          are the two abstract packets equivalent?                   *)
@@ -379,7 +393,7 @@ Judge(row) ==
   IF row.op = "equiv"
     THEN [id |-> row.id, op |-> "equiv", equiv |-> Equiv(row.exp, row.got), res |-> Res(Fail("n/a"))]
     ELSE LET r == Parse(row.bytes, row.ver)
-         IN [id |-> row.id, op |-> "parse", equiv |-> r.ok /\ Equiv(r.pkt, row.exp), res |-> Res(r)]
+         IN [id |-> row.id, op |-> "parse", equiv |-> r.ok /\ Equiv(CanonPkt(r.pkt), row.exp), res |-> Res(r)]
 JudgeWork(k) ==
   LET rows == ShardOf(JudgeIn, k)
   IN /\ JsonSerialize(OutFile \o "." \o ToString(k) \o ".json", [i \in 1..Len(rows) |-> Judge(rows[i])])
@@ -395,8 +409,8 @@ ThmWork(k) ==
      /\ PrintT(<<"ROWS", k, Len(ps), Len(ps)>>)
 
 VbiWork(k) == /\ Assert(VbiTheorems, "VbiTheorems")
-              /\ JsonSerialize(OutFile \o "." \o ToString(k) \o ".json", VbiTable(Size))
-              /\ PrintT(<<"ROWS", k, Len(VbiTable(Size).patterns), Len(VbiTable(Size).enc)>>)
+              /\ LET t == VbiTable(Size)
+                 IN JsonSerialize(OutFile \o "." \o ToString(k) \o ".json", t) /\ PrintT(<<"ROWS", k, Len(t.patterns), Len(t.enc)>>)
 
 Work(k) == CASE Job = "vbi"   -> VbiWork(k)
              [] Job = "c42"   -> C42Work(k)
